@@ -151,12 +151,17 @@ C15 = Prop(
     harness=HARNESS, search=lambda dis, rng: gen_c15("thorough", rng),
     theorem_hint="NitroVerif.Props.C15.*",
     level_text="Lean 4: the option section lists the default group then the groups in creation order, every entry once in "
-               "declaration order; format_padded preserves the word sequence and keeps every line within the width unless "
-               "one unbreakable piece forces it; the text does not depend on the target stream. Tied to the working tree "
-               "by exact comparison of the text on three kinds of stream.",
+               "declaration order; format_padded preserves the word sequence (fpGo_tokens) and keeps every line within the "
+               "width when no piece is too long to ever fit (width_format_padded, by induction over the word list with "
+               "the remaining-space invariant), lifted to every option entry whose left column is <= 80 (width_entry) and "
+               "to the synopsis for application names < 72 characters (width_synopsis) - the complements are the recorded "
+               "findings U2/U3, and about/group descriptions are never wrapped (U4); lines that do contain a forcing piece "
+               "are judged on the implementation's text only; the text does not depend on the target stream nor on "
+               "whether the parser object was moved. Tied to the working tree by exact comparison of the text on three "
+               "kinds of stream and three moved parsers.",
     level_note="Trusted: Lean kernel; propext/Classical.choice/Quot.sound; iostream width/tellp semantics and std::set<toggle*> "
                "iteration order (read off the implementation) are modelled; correspondence is sampled.",
-    technique="Lean 4 proof (induction over the word list) + differential correspondence on three stream kinds",
+    technique="Lean 4 proof (word preservation and width invariant by induction over the word list) + differential correspondence on three stream kinds and moved parsers",
     design_ref="4 Engine Usage (C15)",
     assumptions=["std::setw(n) << ' ' writes max(n,1) blanks", "tellp() of a fresh stringstream is the number of characters written"],
     known={"U2": known_u2, "U3": known_u3, "U4": known_u4},
